@@ -13,28 +13,28 @@ import (
 
 // Op kinds.
 const (
-	EntRaise    = "ent.raise"
-	EntDecide   = "ent.decide"
-	EntWL       = "ent.whitelist"
-	WrkReg      = "wrk.register"
-	WrkRec      = "wrk.record"
-	WrkPur      = "wrk.purchase"
-	BcnReg      = "bcn.register"
-	BcnRec      = "bcn.record"
-	BcnPur      = "bcn.purchase"
-	StrCreate   = "str.create"
-	StrClaim    = "str.claim"
-	StrTopUp    = "str.topup"
-	StrUpdate   = "str.update"
-	StrCancel   = "str.cancel"
-	BankSend    = "bank.send"
-	StakeDeleg  = "staking.delegate"
-	ParamsEnt   = "params.ent"
-	ParamsWrk   = "params.wrk"
-	ParamsBcn   = "params.bcn"
-	ParamsStr   = "params.stream"
-	AuthzGrant  = "authz.grant"
-	FeeGrantOp  = "feegrant.grant"
+	EntRaise   = "ent.raise"
+	EntDecide  = "ent.decide"
+	EntWL      = "ent.whitelist"
+	WrkReg     = "wrk.register"
+	WrkRec     = "wrk.record"
+	WrkPur     = "wrk.purchase"
+	BcnReg     = "bcn.register"
+	BcnRec     = "bcn.record"
+	BcnPur     = "bcn.purchase"
+	StrCreate  = "str.create"
+	StrClaim   = "str.claim"
+	StrTopUp   = "str.topup"
+	StrUpdate  = "str.update"
+	StrCancel  = "str.cancel"
+	BankSend   = "bank.send"
+	StakeDeleg = "staking.delegate"
+	ParamsEnt  = "params.ent"
+	ParamsWrk  = "params.wrk"
+	ParamsBcn  = "params.bcn"
+	ParamsStr  = "params.stream"
+	AuthzGrant = "authz.grant"
+	FeeGrantOp = "feegrant.grant"
 )
 
 // Op is one message of a transaction. References to entities are resolved by
@@ -71,11 +71,11 @@ type Op struct {
 // generated at/inside/outside their bounds; strings are literal.
 type ParamsPatch struct {
 	// enterprise
-	Signers     []int  `json:"signers,omitempty"` // account indices (valid addresses)
-	SignersRaw  string `json:"signers_raw,omitempty"` // if set, used verbatim (malformed lists)
-	MinAccepts  uint64 `json:"min_accepts,omitempty"`
-	TimeLimit   uint64 `json:"time_limit,omitempty"`
-	Denom       string `json:"denom,omitempty"`
+	Signers    []int  `json:"signers,omitempty"`     // account indices (valid addresses)
+	SignersRaw string `json:"signers_raw,omitempty"` // if set, used verbatim (malformed lists)
+	MinAccepts uint64 `json:"min_accepts,omitempty"`
+	TimeLimit  uint64 `json:"time_limit,omitempty"`
+	Denom      string `json:"denom,omitempty"`
 	// wrkchain / beacon
 	FeeReg   uint64 `json:"fee_reg,omitempty"`
 	FeeRec   uint64 `json:"fee_rec,omitempty"`
@@ -132,8 +132,8 @@ type Tx struct {
 	Fault   int     `json:"fault,omitempty"`   // lab.Fault*
 	Granter int     `json:"granter,omitempty"` // fee granter account index+1 (0 = none)
 	// FeePayer: account index+1 of an explicit fee payer (AuthInfo.Fee.Payer) who co-signs; 0 = the first signer pays.
-	FeePayer int `json:"fee_payer,omitempty"`
-	Check   bool    `json:"check,omitempty"`   // run CheckTx before DeliverTx
+	FeePayer int  `json:"fee_payer,omitempty"`
+	Check    bool `json:"check,omitempty"` // run CheckTx before DeliverTx
 	// Repeat > 1: the transaction is built and delivered that many times in a row (each time resolved
 	// against the then-current state): bulk populations around pagination / page-size boundaries.
 	Repeat int `json:"repeat,omitempty"`
@@ -143,19 +143,25 @@ type Block struct {
 	DtMs int64 `json:"dt_ms"`
 	// DtRule 1: advance to the deposit-zero time of the DtRef-th stream, plus (DtMs mod 3 - 1) seconds.
 	// DtRule 2: advance into the second that holds that deposit-zero time (before, at or after it by milliseconds).
-	DtRule int `json:"dt_rule,omitempty"`
-	DtRef  int `json:"dt_ref,omitempty"`
+	DtRule int  `json:"dt_rule,omitempty"`
+	DtRef  int  `json:"dt_ref,omitempty"`
 	Txs    []Tx `json:"txs"`
 	// Crash: restart points inside this block (C01): 0 none, 1 after BeginBlock,
 	// 2 after the K-th DeliverTx, 3 after EndBlock, 4 after Commit.
 	Crash  int `json:"crash,omitempty"`
 	CrashK int `json:"crash_k,omitempty"`
+	// Reimport: before this block the network is restarted from a genesis document: the state is exported, a fresh
+	// chain is initialised from the export (InitChain) and the history continues there (heights start again at 1,
+	// time continues). If the export cannot be imported the history continues on the old chain (that is C15's concern).
+	Reimport bool `json:"reimport,omitempty"`
 }
 
 type Scenario struct {
 	Gen    lab.GenesisCfg `json:"genesis"`
 	Nodes  []lab.NodeOpts `json:"nodes,omitempty"`
 	Blocks []Block        `json:"blocks"`
+	// MinGasPrices: the minimum-gas-prices setting of the node the history runs on (node-local mempool policy).
+	MinGasPrices string `json:"min_gas_prices,omitempty"`
 }
 
 func (s *Scenario) JSON() []byte {
